@@ -159,3 +159,11 @@ Example C12_toy_concrete :
   priv_tweaked_key toy sha 3 [1; 2] = Ok 6 /\
   tweaked_key toy sha (Some (35, 21)) [1; 2] = pubkey toy 6 /\ pubkey toy 6 = Ok (Some (29, 31)).
 Proof. vm_compute. repeat split; reflexivity. Qed.
+
+(* The constants written in the model are the constants of the SOURCE: coq/Generated/SrcConsts.v is regenerated
+   from /repo/buidl/*.py by harness/gen_coq_consts.py on every run; the statements are spelled out in
+   Proofs/ConstsTie.v (secp256k1_is_source_stmt). *)
+From V Require Proofs.ConstsTie.
+Theorem C12_constants_match_source : ConstsTie.secp256k1_is_source_stmt.
+Proof. exact ConstsTie.secp256k1_is_source. Qed.
+Print Assumptions C12_constants_match_source.
